@@ -10,6 +10,7 @@
 from __future__ import annotations
 
 import ast
+import re
 from fractions import Fraction
 
 from .core import AnalysisError, loc, norm_src, walk_no_nested, dotted, str_const, Inliner
@@ -53,35 +54,86 @@ def run(index, rep):
 # ----------------------------------------------------------------------------------------------- CHAIN
 
 
+_EXTRACT_STEPS = ("extract_to_humans_feed_and_biofuel", "get_objective_optimization_results", "get_greenhouse_results",
+                  "extract_outdoor_crops_results", "extract_meat_milk_results")
+_ext_cache = {}
+
+
+def extractor_view(index):
+    """Extractor.extract_results evaluated once: -> (attribute -> abstract value, [(step name, argument values, call node)]).  The five
+    extraction steps are recorded as calls (result k of call n is the path `call<n>.<k>`); everything else - loops over tables of
+    foods, setattr, argument lists built first and spread with * - is executed, so the attributes read the same however they are filled"""
+    if id(index) in _ext_cache:
+        return _ext_cache[id(index)]
+    cls = index.cls(EXT, "Extractor")
+    er = index.func(EXT, "Extractor.extract_results")
+    calls = []
+
+    def runit(it):
+        it.classes = {"Extractor": cls}
+        del calls[:]
+
+        def hook(interp, d, a, kw, node):
+            if d and d.startswith("self.") and d[5:] in _EXTRACT_STEPS:
+                callee = index.func(EXT, "Extractor." + d[5:])
+                params = [x.arg for x in callee.args.args][1:]
+                a = list(a) + [kw[p_] for p_ in params[len(a):] if p_ in kw]
+                calls.append((d[5:], a, node))
+                n = len(calls) - 1
+                if d[5:] == "extract_to_humans_feed_and_biofuel":
+                    return tuple(Path((f"call{n}", str(k))) for k in range(3))
+                return Path((f"call{n}",))
+            return NotImplemented
+
+        it.call_hook = hook
+        obj = Obj(cls, {"constants": Path(("consts",))}, "self")
+        it.call_function(er, [Path(("model",)), Path(("variables",)), Path(("tc",))], {}, obj)
+        return obj, list(calls)
+
+    try:
+        leaves = [x for x in explore(runit, month_classes=False) if not isinstance(x[2], Abort)]
+    except Unsupported as e:
+        raise AnalysisError(f"Extractor.extract_results outside the analysed fragment: {e}")
+    if len(leaves) != 1:
+        raise AnalysisError(f"Extractor.extract_results: {len(leaves)} paths (expected one unconditional sequence of extraction steps)")
+    obj, cl = leaves[0][2]
+    _ext_cache[id(index)] = (obj.attrs, cl, leaves[0][3])
+    return _ext_cache[id(index)]
+
+
 def chain(index, rep, db):
     rule = "C04.CHAIN"
     er = index.func(EXT, "Extractor.extract_results")
-    # 1. the four (to_humans, feed, biofuel) triples
-    found = {}
-    for st in walk_no_nested(er):
-        if isinstance(st, ast.Assign) and isinstance(st.value, ast.Call) and dotted(st.value.func) == "self.extract_to_humans_feed_and_biofuel":
-            tg = st.targets[0]
-            if not (isinstance(tg, ast.Tuple) and len(tg.elts) == 3):
-                raise AnalysisError("extract_to_humans_feed_and_biofuel result is not unpacked into three attributes")
-            targets = [dotted(e) for e in tg.elts]
-            args = st.value.args
-            fams = []
-            for a in args[:3]:
-                if isinstance(a, ast.Subscript) and norm_src(a.value) == "variables" and str_const(a.slice):
-                    fams.append(str_const(a.slice))
-                else:
-                    fams.append("?" + norm_src(a))
-            found[targets[0]] = (targets, fams, args[3] if len(args) > 3 else None, st)
+    attrs_x, calls_x, it_x = extractor_view(index)
+    # 1. the four (to_humans, feed, biofuel) triples: attribute <food>_<use> is result k of one extraction call whose k-th argument is
+    #    the optimiser's variable family <lp family>_<use>
+    def path_text(v):
+        return ".".join(str(x) for x in v.parts) if isinstance(v, Path) else None
+
     for food, (lpfam, exattr) in VAR_FOODS.items():
-        key = f"self.{exattr}_to_humans"
-        if key not in found:
-            raise AnalysisError(f"extract_results no longer fills {key} from extract_to_humans_feed_and_biofuel")
-        targets, fams, ratio, st = found[key]
-        want_t = [f"self.{exattr}_to_humans", f"self.{exattr}_feed", f"self.{exattr}_biofuel"]
-        want_f = [f"{lpfam}_to_humans", f"{lpfam}_feed", f"{lpfam}_biofuel"]
-        rep.check(targets == want_t and fams == want_f, rule, f"extractor:{food}:(to_humans,feed,biofuel)",
-                  f"the optimiser variables {fams} are not extracted into {want_t} in that order (a feed/biofuel series would be "
-                  "reported as eaten by people, or vice versa)", loc=loc(EXT, st))
+        uses = ("to_humans", "feed", "biofuel")
+        got_t, got_f = [], []
+        call_ids = set()
+        for k, use in enumerate(uses):
+            v = attrs_x.get(f"{exattr}_{use}")
+            pt = path_text(v) or ""
+            m_ = re.fullmatch(r"call(\d+)\.(\d)", pt)
+            if not m_ or calls_x[int(m_.group(1))][0] != "extract_to_humans_feed_and_biofuel":
+                got_t.append(pt or "?")
+                got_f.append("?")
+                continue
+            n_, slot = int(m_.group(1)), int(m_.group(2))
+            call_ids.add(n_)
+            got_t.append(f"result {slot}")
+            args_ = calls_x[n_][1]
+            got_f.append((path_text(args_[slot]) or "?").replace("variables.", "") if slot < len(args_) else "?")
+        if not call_ids:
+            raise AnalysisError(f"extract_results no longer fills self.{exattr}_to_humans from extract_to_humans_feed_and_biofuel")
+        want_f = [f"{lpfam}_{u}" for u in uses]
+        node = calls_x[sorted(call_ids)[0]][2]
+        rep.check(len(call_ids) == 1 and got_t == ["result 0", "result 1", "result 2"] and got_f == want_f, rule, f"extractor:{food}:(to_humans,feed,biofuel)",
+                  f"the optimiser variables {got_f} are not extracted into self.{exattr}_(to_humans, feed, biofuel) in that order (a feed/biofuel series "
+                  "would be reported as eaten by people, or vice versa)", loc=loc(EXT, node))
     # 2. helper: slot i of the result comes from parameter i
     h = index.func(EXT, "Extractor.extract_to_humans_feed_and_biofuel")
     params = [a.arg for a in h.args.args][1:]
@@ -106,13 +158,13 @@ def chain(index, rep, db):
     rep.check(ok, rule, "helper:slot-i-from-parameter-i", "extract_to_humans_feed_and_biofuel does not return (f(to_humans), f(feed), f(biofuel)) "
               "built with the same three ratios", loc=loc(EXT, h))
     # 3. the remaining five foods
-    src = {}
-    for st in walk_no_nested(er):
-        if isinstance(st, ast.Assign) and len(st.targets) == 1 and isinstance(st.targets[0], ast.Attribute):
-            src[dotted(st.targets[0])] = norm_src(st.value)
-    rep.check(src.get("self.fish") == "time_consts['fish'].to_humans.in_units_billions_fed()", rule, "extractor:fish",
+    step = {name: (args_, node) for name, args_, node in calls_x}
+    rep.check(path_text(attrs_x.get("fish")) == "tc.fish.to_humans.in_units_billions_fed()", rule, "extractor:fish",
               "fish contribution is not the fish supply series (to humans) converted to billions fed", loc=loc(EXT, er))
-    rep.check(src.get("self.greenhouse", "").startswith("self.get_greenhouse_results(time_consts['greenhouse_crops']"), rule,
+    ghv = path_text(attrs_x.get("greenhouse")) or ""
+    ghc = re.fullmatch(r"call(\d+)", ghv)
+    rep.check(bool(ghc) and calls_x[int(ghc.group(1))][0] == "get_greenhouse_results" and
+              path_text(calls_x[int(ghc.group(1))][1][0]) == "tc.greenhouse_crops", rule,
               "extractor:greenhouse", "greenhouse contribution is not the greenhouse supply series", loc=loc(EXT, er))
     gh = index.func(EXT, "Extractor.get_greenhouse_results")
     rets = [norm_src(r.value) for r in gh.body if isinstance(r, ast.Return)]
@@ -120,15 +172,13 @@ def chain(index, rep, db):
     asg = [norm_src(s) for s in gh.body if isinstance(s, ast.Assign)]
     rep.check(rets == ["self.greenhouse_percent_fed.in_units_billions_fed()"] and f"self.greenhouse_percent_fed = {par}" in asg, rule,
               "extractor:greenhouse-helper", "get_greenhouse_results does not return its argument converted to billions fed", loc=loc(EXT, gh))
-    calls = {dotted(c.func): c for c in walk_no_nested(er) if isinstance(c, ast.Call) and (dotted(c.func) or "").startswith("self.extract_")}
-    oc = calls.get("self.extract_outdoor_crops_results")
-    mm = calls.get("self.extract_meat_milk_results")
-    if oc is None or mm is None:
+    if "extract_outdoor_crops_results" not in step or "extract_meat_milk_results" not in step:
         raise AnalysisError("extract_results no longer calls extract_outdoor_crops_results / extract_meat_milk_results")
+    oc, mm = step["extract_outdoor_crops_results"][1], step["extract_meat_milk_results"][1]
     ocf = index.func(EXT, "Extractor.extract_outdoor_crops_results")
     pnames = [a.arg for a in ocf.args.args][1:]
-    got = [norm_src(a) for a in oc.args]
-    want = [f"variables['{p}']" for p in pnames[:9]] + ["time_consts['outdoor_crops'].production"]
+    got = [path_text(a) or "?" for a in step["extract_outdoor_crops_results"][0]]
+    want = [f"variables.{p}" for p in pnames[:9]] + ["tc.outdoor_crops.production"]
     rep.check(got == want, rule, "extractor:outdoor_crops:arguments",
               "the crop variables are not passed to extract_outdoor_crops_results in the order of its parameters "
               f"(got {got[:3]}..., parameters {pnames[:3]}...)", loc=loc(EXT, oc))
@@ -140,17 +190,29 @@ def chain(index, rep, db):
             ok = [norm_src(a) for a in st.value.args] == pnames[0:3]
     rep.check(ok, rule, "extractor:outdoor_crops:to_humans", "outdoor_crops_to_humans is not built from the to-humans crop variables", loc=loc(EXT, ocf))
     mmf = index.func(EXT, "Extractor.extract_meat_milk_results")
-    got = [norm_src(a) for a in mm.args]
-    rep.check(got == ["variables['meat_eaten']", "time_consts['milk_kcals']", "time_consts['milk_fat']", "time_consts['milk_protein']"], rule,
+    got = [path_text(a) or "?" for a in step["extract_meat_milk_results"][0]]
+    rep.check(got == ["variables.meat_eaten", "tc.milk_kcals", "tc.milk_fat", "tc.milk_protein"], rule,
               "extractor:meat-milk:arguments", f"meat/milk extraction receives {got}", loc=loc(EXT, mm))
     # 4. interpreter mappings
     for q, method, suffix in (("Interpreter.assign_percent_fed_from_extractor", "in_units_percent_fed", ""),
                               ("Interpreter.assign_kcals_equivalent_from_extractor", "in_units_kcals_equivalent", "_kcals_equivalent")):
         fn = index.func(INT, q)
-        got = {}
-        for st in fn.body:
-            if isinstance(st, ast.Assign) and isinstance(st.targets[0], ast.Attribute):
-                got[st.targets[0].attr] = norm_src(st.value)
+        # evaluated: the attributes the method leaves on the interpreter (hand-written assignments or a loop over a table of foods)
+        icls = index.cls(INT, "Interpreter")
+
+        def run_i(it_, fn=fn, icls=icls):
+            it_.classes = {"Interpreter": icls}
+            o_ = Obj(icls, {}, "self")
+            it_.call_function(fn, [Path(("extracted_results",))], {}, o_)
+            return o_
+
+        try:
+            lv = [x for x in explore(run_i, month_classes=False) if not isinstance(x[2], Abort)]
+        except Unsupported as e:
+            raise AnalysisError(f"{q} outside the analysed fragment: {e}")
+        if len(lv) != 1:
+            raise AnalysisError(f"{q}: {len(lv)} paths (expected one unconditional sequence of assignments)")
+        got = {k_: path_text(v_) for k_, v_ in lv[0][2].attrs.items()}
         for attr, ex in PERCENT_SRC.items():
             if suffix and attr == "outdoor_crops":
                 continue  # the kcal-equivalent of crops is reported as its two parts
@@ -209,15 +271,12 @@ def coef(index, rep, db):
         if v.family != "consumed_kcals":
             lp[v.family] = (Rat.const(0) - c) / norm
     # extractor ratios
-    er = index.func(EXT, "Extractor.extract_results")
-    it = Interp()
-    for st in walk_no_nested(er):
-        if isinstance(st, ast.Assign) and isinstance(st.value, ast.Call) and dotted(st.value.func) == "self.extract_to_humans_feed_and_biofuel":
-            fam = str_const(st.value.args[0].slice) if isinstance(st.value.args[0], ast.Subscript) else None
-            r = st.value.args[3]
-            env = {"self": Obj(None, {"constants": Path(("consts",))}, "self")}
+    attrs_x, calls_x, it = extractor_view(index)
+    for name_, args_, st in calls_x:
+        if name_ == "extract_to_humans_feed_and_biofuel":
+            fam = args_[0].parts[1] if isinstance(args_[0], Path) and len(args_[0].parts) == 2 and args_[0].parts[0] == "variables" else None
             try:
-                val = it.to_rat(it.eval(r, env))
+                val = it.to_rat(args_[3])
             except Exception as e:
                 raise AnalysisError(f"kcals_ratio argument outside the fragment: {e}")
             if fam not in lp:
